@@ -134,6 +134,16 @@ def _stored(fn: ast.AST) -> set[str]:
     return out
 
 
+class _ReplaceNode(ast.NodeTransformer):
+    def __init__(self, old: ast.AST, new: ast.AST):
+        self.old, self.new = old, new
+
+    def visit(self, node):
+        if node is self.old:
+            return self.new
+        return super().visit(node)
+
+
 class Inliner:
     def __init__(self, tree: ast.Module, ref_functions: set[str] | None, ref_locals: dict[str, list[str]]):
         self.tree = tree
@@ -296,6 +306,43 @@ class Inliner:
         e = _Sub(dict(bound), {}).visit(e)
         return e
 
+    @staticmethod
+    def _hoistable(root: ast.AST, resolve) -> ast.Call | None:
+        """A helper call inside `root` that is evaluated unconditionally and before anything with an effect: only reached through
+        comparison / arithmetic / call-argument / attribute / subscript positions, with every operand evaluated earlier being simple."""
+        def search(e: ast.AST):
+            if isinstance(e, ast.Call):
+                h, _ = resolve(e)
+                if h is not None and not any(isinstance(a, ast.Starred) for a in e.args):
+                    body = _doc_stripped(h.body)
+                    if not (len(body) == 1 and isinstance(body[0], ast.Return)):  # single-return helpers are inlined as expressions
+                        return e, True
+            kids: list[ast.AST]
+            if isinstance(e, ast.Compare):
+                kids = [e.left, *e.comparators]
+            elif isinstance(e, ast.BinOp):
+                kids = [e.left, e.right]
+            elif isinstance(e, ast.UnaryOp):
+                kids = [e.operand]
+            elif isinstance(e, ast.Call):
+                kids = [e.func, *e.args, *[k.value for k in e.keywords]]
+            elif isinstance(e, ast.Attribute):
+                kids = [e.value]
+            elif isinstance(e, ast.Subscript):
+                kids = [e.value, e.slice]
+            elif isinstance(e, (ast.Tuple, ast.List)):
+                kids = list(e.elts)
+            else:
+                return None, _is_simple(e)
+            for k in kids:
+                found, pure = search(k)
+                if found is not None:
+                    return found, True
+                if not pure:
+                    return None, False
+            return None, not isinstance(e, ast.Call)
+        return search(root)[0]
+
     # ---------------------------------------------------------------- driver
     def _resolve(self, host: ast.FunctionDef, host_cls: ast.ClassDef | None, call: ast.Call, mod_helpers, cls_helpers, local_helpers):
         f = call.func
@@ -340,6 +387,23 @@ class Inliner:
                 if isinstance(s, ast.Match):
                     for c in s.cases:
                         c.body = do_block(c.body)
+                # a helper call nested in the statement's leading expression is hoisted into its own assignment first
+                root = s.test if isinstance(s, ast.If) else s.iter if isinstance(s, ast.For) else \
+                    getattr(s, "value", None) if isinstance(s, (ast.Assign, ast.AugAssign, ast.AnnAssign, ast.Return, ast.Expr)) else None
+                if root is not None and not (isinstance(root, ast.Call) and resolve(root)[0] is not None and not isinstance(s, (ast.If, ast.For))):
+                    hc = self._hoistable(root, resolve)
+                    if hc is not None:
+                        self.counter += 1
+                        tmp = f"__h{self.counter}"
+                        pre = ast.copy_location(ast.Assign(targets=[ast.Name(id=tmp, ctx=ast.Store())], value=hc), s)
+                        _ReplaceNode(hc, ast.copy_location(ast.Name(id=tmp, ctx=ast.Load()), hc)).visit(s)
+                        ast.fix_missing_locations(pre)
+                        try:
+                            out.extend(self._expand(host, pre, hc, *resolve(hc)))
+                            self.inlined.append((qual, resolve(hc)[0].name))
+                            changed = True
+                        except NotInlinable:
+                            out.append(pre)
                 val = getattr(s, "value", None) if isinstance(s, (ast.Assign, ast.AugAssign, ast.AnnAssign, ast.Return, ast.Expr)) else None
                 if isinstance(val, ast.Call):
                     h, m = resolve(val)
